@@ -29,6 +29,15 @@ HdrTok(h) == CASE h.g = 60 /\ h.v = 1 /\ h.q = 6 -> [n |-> "c0", lim |-> -1, v |
                [] OTHER -> [n |-> "?", lim |-> -1, v |-> 0]
 ClsOf(hdrs) == {hdrs[i].v - 1 : i \in {j \in 1..Len(hdrs) : hdrs[j].g = 60 /\ hdrs[j].v \in 2..4 /\ hdrs[j].q = 6}}
 
+\* the object set of a freeze request (see Outstation.tla)
+FrzOb(hdrs) ==
+    LET g20 == [g |-> 20, v |-> 0, q |-> 6, a |-> -1, b |-> -1]
+        g30 == [g |-> 30, v |-> 0, q |-> 6, a |-> -1, b |-> -1]
+    IN CASE hdrs = <<g20>> -> "all" [] hdrs = <<[g |-> 20, v |-> 0, q |-> 0, a |-> 0, b |-> 1]>> -> "rng"
+         [] hdrs = <<g20, g30>> -> "gb" [] hdrs = <<g30, g20>> -> "bg" [] hdrs = <<g30>> -> "bad"
+         [] hdrs = <<[g |-> 50, v |-> 2, q |-> 7, a |-> 1, b |-> -1], g20>> -> "timed"
+         [] OTHER -> "?"
+
 \* the resolved input a line records, or [k |-> "?"] when the specification has no such input
 InOf(e) ==
     CASE e.k \in {"conn", "cut"} -> [k |-> e.k]
@@ -72,6 +81,13 @@ InOf(e) ==
                            req(CASE e.fc = 3 -> "select" [] e.fc = 4 -> "operate" [] e.fc = 5 -> "dop"
                                  [] OTHER -> "dopnr", {},
                                IF e.hdrs[1].q = 40 THEN "a2" ELSE IF e.robjs[1].ix = 1 THEN "a" ELSE "b", "")
+                      [] e.fc \in 7..12 /\ FrzOb(e.hdrs) # "?" /\ (FrzOb(e.hdrs) = "timed" => e.fc \in {11, 12})
+                           /\ (e.fc \in {11, 12} => FrzOb(e.hdrs) \in {"timed", "all"}) ->
+                           LET ob == FrzOb(e.hdrs)
+                               f == CASE e.fc = 7 -> "frz" [] e.fc = 8 -> "frznr" [] e.fc = 9 -> "frzclr"
+                                      [] e.fc = 10 -> "frzclrnr" [] e.fc = 11 -> "frzat" [] OTHER -> "frzatnr"
+                           IN req(f, {}, ob, IF ob \in {"gb", "bg", "bad"} \/ (e.fc \in {11, 12} /\ ob = "all")
+                                               THEN "reject" ELSE "")
                       [] e.fc = 2 /\ Len(e.robjs) = 1 /\ e.robjs[1].g = 80 /\ e.robjs[1].ix = 7
                            /\ e.robjs[1].val = "0" -> req("write_rst", {}, "", "")
                       [] e.fc = 2 /\ Len(e.robjs) = 2 /\ e.robjs[1].g = 80 /\ e.robjs[2].g = 80 /\ e.robjs[1].val = "0"
@@ -84,7 +100,7 @@ InOf(e) ==
 PObj(o) == [g |-> o.g, v |-> o.v, ix |-> o.ix, ev |-> o.ev, val |-> o.val, fl |-> o.fl, tm |-> o.tm]
 PTx(x)  == [t |-> x.t, fc |-> x.fc, seq |-> x.seq, fir |-> x.fir, fin |-> x.fin, con |-> x.con,
             uns |-> x.uns, iin |-> x.iin, objs |-> [i \in 1..Len(x.objs) |-> PObj(x.objs[i])]]
-PCb(c)  == [t |-> c.t, k |-> c.k, n |-> c.n, i |-> c.i]
+PCb(c)  == [t |-> c.t, k |-> c.k, n |-> c.n, i |-> c.i, s |-> IF c.k = "app" /\ c.n = "freeze" THEN c.s ELSE ""]
 PItem(it) == [info |-> it.info, id |-> it.id, disc |-> it.disc]
 
 Differ(pe, e) ==
